@@ -938,10 +938,12 @@ def _grading(r, idx, fi, selfn, ANS, STU):
     # hand-over to process_grade_list
     pg = lib.one_call(fi, 'process_grade_list')
     construct = 'check_response: process_grade_list arguments'
-    if len(pg.args) != 4:
+    pgl = idx.func(SLG + '.process_grade_list')
+    bound = cm.bind_call(pgl.params[1:], pg)
+    if bound is None or not all(k in bound for k in ('grade_list', 'num_answers', 'msg', 'grade_decimal')):
         r.undecided(construct, '`%s`' % short(pg), lib.loc(fi, pg))
         return
-    gl, na, ms, gd = pg.args
+    gl, na, ms, gd = bound['grade_list'], bound['num_answers'], bound['msg'], bound['grade_decimal']
     where = lib.loc(fi, pg)
     if cm.is_call_to(na, 'len', 1) and cm.is_name(na.args[0], ANS):
         r.ok(construct + ' (expected count)', 'len(answers)', where)
@@ -1014,7 +1016,7 @@ def d5_padding(ctx, idx):
         if len(inner.params) != 2:
             raise AnalysisError('padded_check._check: parameters changed')
         A, I = inner.params
-        paths = nf.decision_paths(inner.node.body)
+        paths = cm.split_conditional_returns(nf.decision_paths(inner.node.body))
         seen = set()
         for p in paths:
             where = lib.loc(inner, p.leaf.stmt) if p.leaf.stmt is not None else inner.loc
@@ -1186,6 +1188,129 @@ def _split_symmetry(r, idx):
                     expected='the same split on both sides', found=short(node.value))
 
 
+
+def _infer_cases(r, idx, fi, selfn):
+    """What infer_from_expect returns when the subgrader is / is not a SingleListGrader, over its decision paths.
+
+    not nested: the split list.   nested: each item replaced by config['subgrader'].infer_from_expect(item), in order
+    (in place over enumerate, or as a comprehension), or -- accepted with a note -- the split list itself, because the nested
+    grader's post_schema_ans_val converts nested strings anyway."""
+    C_RET, C_NEST = 'SingleListGrader.infer_from_expect: return', 'SingleListGrader.infer_from_expect: nested lists'
+    outs = [n.targets[0].id for n in walk_own(fi.node) if isinstance(n, ast.Assign) and len(n.targets) == 1
+            and isinstance(n.targets[0], ast.Name) and _split_form(n.value, 'expect') is not None]
+    OUT = outs[0] if len(outs) == 1 else None
+    paths = nf.decision_paths(fi.node.body, keep_locals=(OUT,) if OUT else ())
+    nested_p = nf.pat("isinstance(%s.config['subgrader'], SingleListGrader)" % selfn)
+
+    def is_split(e):
+        return (OUT is not None and cm.is_name(e, OUT)) or _split_form(e, 'expect') is not None
+
+    def recursion(call):
+        """'sub' | 'self' | None for X.infer_from_expect(item)"""
+        if not (isinstance(call, ast.Call) and nf.callee_name(call) == 'infer_from_expect' and isinstance(call.func, ast.Attribute)
+                and len(call.args) == 1):
+            return None
+        if lib.is_config(call.func.value, 'subgrader'):
+            return 'sub'
+        if cm.is_name(call.func.value, selfn):
+            return 'self'
+        return None
+    res = {'ret': [], 'nest': []}
+    for p in paths:
+        where = lib.loc(fi, p.leaf.stmt) if p.leaf.stmt is not None else fi.loc
+        if p.leaf.kind == 'raise':
+            continue
+        if p.leaf.kind != 'ret':
+            res['ret'].append(('viol', 'a path returns nothing (None)', where))
+            continue
+        nested = None
+        unknown = False
+        for g in p.guards:
+            neg = isinstance(g, ast.UnaryOp) and isinstance(g.op, ast.Not)
+            core = g.operand if neg else g
+            if nf.Matcher().match(nested_p, core) is not None:
+                nested = not neg
+            else:
+                unknown = True
+        e = p.leaf.expr
+        loops = [x for x in p.effects if isinstance(x, ast.For)]
+        # classify what is returned
+        kind, rec = None, None
+        if isinstance(e, (ast.ListComp, ast.GeneratorExp)) or (cm.is_call_to(e, 'list', 1) and isinstance(e.args[0], (ast.ListComp, ast.GeneratorExp))):
+            comp = e if isinstance(e, (ast.ListComp, ast.GeneratorExp)) else e.args[0]
+            g0 = comp.generators[0]
+            if len(comp.generators) == 1 and not g0.ifs and isinstance(g0.target, ast.Name) and is_split(g0.iter) \
+                    and isinstance(comp.elt, ast.Call) and len(comp.elt.args) == 1 and cm.is_name(comp.elt.args[0], g0.target.id):
+                rec = recursion(comp.elt)
+                kind = 'mapped' if rec else None
+        elif is_split(e):
+            kind = 'split'
+            for lp in loops:
+                stores = [x for x in ast.walk(lp) if isinstance(x, ast.Assign) and len(x.targets) == 1 and isinstance(x.targets[0], ast.Subscript)
+                          and OUT is not None and cm.is_name(x.targets[0].value, OUT)]
+                if stores:
+                    st = stores[0]
+                    okshape = cm.is_call_to(lp.iter, 'enumerate', 1) and cm.is_name(lp.iter.args[0], OUT) and isinstance(lp.target, ast.Tuple) \
+                        and len(lp.target.elts) == 2 and all(isinstance(t, ast.Name) for t in lp.target.elts) \
+                        and cm.is_name(st.targets[0].slice, lp.target.elts[0].id) and isinstance(st.value, ast.Call) \
+                        and len(st.value.args) == 1 and cm.is_name(st.value.args[0], lp.target.elts[1].id) and not lib.loop_has_early_exit(lp)
+                    rec = recursion(st.value) if okshape else None
+                    kind = 'mapped' if rec else None
+        if kind is None:
+            res['ret' if nested is not True else 'nest'].append(('und', 'returns `%s`%s' % (short(e), ' after a loop' if loops else ''), where))
+            continue
+        if rec == 'self':
+            res['nest'].append(('viol', 'the recursion calls self.infer_from_expect: nested items are split again on the *outer* delimiter '
+                                'instead of the nested grader\'s', where))
+            continue
+        if unknown:
+            res['ret'].append(('und', 'path under unrecognised guards %s' % [short(g) for g in p.guards], where))
+            continue
+        if nested is True:
+            if kind == 'mapped':
+                res['nest'].append(('ok', "each item replaced by config['subgrader'].infer_from_expect(item)", where))
+            else:
+                res['nest'].append(('plain', '', where))
+        elif nested is False:
+            if kind == 'split':
+                res['ret'].append(('ok', 'the split list', where))
+            else:
+                res['ret'].append(('viol', "the subgrader's infer_from_expect is applied to the items although the subgrader is not a "
+                                   "SingleListGrader", where))
+        else:
+            # no case split at all
+            if kind == 'mapped':
+                res['nest'].append(('viol', 'the recursion is not restricted to nested SingleListGraders: any subgrader\'s infer_from_expect '
+                                    'is applied to the items', where))
+            else:
+                res['ret'].append(('ok', 'the split list', where))
+                res['nest'].append(('plain', '', where))
+    if any(k == 'plain' for k, t, w in res['nest']) and not any(k in ('viol', 'und') for k, t, w in res['nest']):
+        ps_ = idx.func(SLG + '.post_schema_ans_val')
+        hop = [c for c in lib.calls_named(ps_.node, 'post_schema_ans_val') if isinstance(c.func, ast.Attribute)
+               and lib.is_config(c.func.value, 'subgrader')]
+        if hop or cm.calls_unreviewed(idx, ps_.node):
+            res['nest'] = [x for x in res['nest'] if x[0] != 'plain'] + [
+                ('ok', "no recursion here; nested strings are converted by config['subgrader'].post_schema_ans_val", fi.loc)]
+            r.note('infer_from_expect does not recurse into nested SingleListGraders (redundant with post_schema_ans_val)')
+        else:
+            res['nest'] = [('viol', 'nested string answers are converted neither by infer_from_expect nor by the nested grader\'s '
+                            'post_schema_ans_val: a nested answer stays a string', fi.loc)]
+    for construct, items in ((C_RET, res['ret']), (C_NEST, res['nest'])):
+        viols = [(t, w) for k, t, w in items if k == 'viol']
+        unds = [(t, w) for k, t, w in items if k == 'und']
+        oks = [(t, w) for k, t, w in items if k == 'ok']
+        if viols:
+            for t, w in viols:
+                r.violation(construct, t, w)
+        elif unds:
+            r.undecided(construct, unds[0][0], unds[0][1])
+        elif oks:
+            r.ok(construct, oks[0][0], oks[0][1])
+        else:
+            r.undecided(construct, 'no returning path classified', fi.loc)
+
+
 # ------------------------------------------------------------------------------- D6
 def d6_infer(ctx, idx):
     r = ctx.rule('D6.INFER', "string answers are split on the grader's own delimiter, nested lists by the nested grader; the same split as for the submission", floor=6)
@@ -1210,54 +1335,7 @@ def d6_infer(ctx, idx):
                         expected="self.config['delimiter']", found=short(sp))
         else:
             r.undecided(construct, '`%s`' % short(sp), lib.loc(fi, sp))
-        st = cm.enclosing_stmt(sp)
-        OUT = st.targets[0].id if isinstance(st, ast.Assign) and len(st.targets) == 1 and isinstance(st.targets[0], ast.Name) else None
-        for ret in lib.returns_of(fi.node):
-            r.check(OUT is not None and cm.is_name(ret.value, OUT), 'SingleListGrader.infer_from_expect: return', 'the split list',
-                    'returns `%s`' % short(ret.value), lib.loc(fi, ret))
-        rec = [c for c in lib.calls_named(fi.node, 'infer_from_expect')]
-        construct = 'SingleListGrader.infer_from_expect: nested lists'
-        if not rec:
-            # not required: post_schema_ans_val hands every item to the nested grader's own schema_answers/post_schema_ans_val,
-            # which converts strings itself (confirmed by running the library: behaviour is unchanged without the recursion)
-            ps_ = idx.func(SLG + '.post_schema_ans_val')
-            hop = [c for c in lib.calls_named(ps_.node, 'post_schema_ans_val') if isinstance(c.func, ast.Attribute)
-                   and lib.is_config(c.func.value, 'subgrader')]
-            if hop:
-                r.ok(construct, "no recursion here; nested strings are converted by config['subgrader'].post_schema_ans_val", fi.loc)
-                r.note('infer_from_expect does not recurse into nested SingleListGraders (redundant with post_schema_ans_val)')
-            else:
-                r.violation(construct, 'nested string answers are converted neither by infer_from_expect nor by the nested grader\'s '
-                            'post_schema_ans_val: a nested answer stays a string', fi.loc)
-        for c in rec:
-            where = lib.loc(fi, c)
-            recv = c.func.value if isinstance(c.func, ast.Attribute) else None
-            g = cm.guards_of(c, stop=fi.node)
-            guarded = any(nf.match("isinstance(%s.config['subgrader'], SingleListGrader)" % selfn, x) is not None for x in g)
-            if recv is not None and lib.is_config(recv, 'subgrader'):
-                stx = cm.enclosing_stmt(c)
-                loop = [a for a in ancestors(c) if isinstance(a, ast.For)]
-                elem_ok = False
-                if loop and cm.is_call_to(loop[0].iter, 'enumerate', 1) and cm.is_name(loop[0].iter.args[0], OUT) \
-                        and isinstance(loop[0].target, ast.Tuple) and len(loop[0].target.elts) == 2 and len(c.args) == 1:
-                    iv, ev = [e.id for e in loop[0].target.elts]
-                    elem_ok = cm.is_name(c.args[0], ev) and isinstance(stx, ast.Assign) and len(stx.targets) == 1 and \
-                        nf.match('%s[%s]' % (OUT, iv), stx.targets[0]) is not None
-                elif isinstance(stx, ast.Assign) and isinstance(stx.value, ast.ListComp):
-                    gen = stx.value.generators[0]
-                    elem_ok = cm.is_name(gen.iter, OUT) and isinstance(gen.target, ast.Name) and len(c.args) == 1 and cm.is_name(c.args[0], gen.target.id)
-                if not guarded:
-                    r.violation(construct, 'the recursion is not restricted to nested SingleListGraders: any subgrader\'s infer_from_expect '
-                                'is applied to the items', where)
-                elif elem_ok:
-                    r.ok(construct, "each item replaced by config['subgrader'].infer_from_expect(item)", where)
-                else:
-                    r.undecided(construct, 'element-wise replacement not recognised around `%s`' % short(stx), where)
-            elif recv is not None and cm.is_name(recv, selfn):
-                r.violation(construct, 'the recursion calls self.infer_from_expect: nested items are split again on the *outer* delimiter '
-                            'instead of the nested grader\'s', where, expected="self.config['subgrader'].infer_from_expect(entry)", found=short(c))
-            else:
-                r.undecided(construct, 'receiver `%s`' % short(recv), where)
+        _infer_cases(r, idx, fi, selfn)
         # post_schema_ans_val converts exactly the strings
         ps = idx.func(SLG + '.post_schema_ans_val')
         calls = lib.calls_named(ps.node, 'infer_from_expect', own=False)
@@ -1392,6 +1470,8 @@ MUTANTS = [
     Mutant('expected-count-from-submission', LG, "self.process_grade_list(grade_list, len(answers), msg, grade_decimal)", "self.process_grade_list(grade_list, len(student_list), msg, grade_decimal)", 'D4'),
     Mutant('padding-roles-swapped', LG, "pad_ans, pad_stud = get_padded_lists(answers, student_list)", "pad_stud, pad_ans = get_padded_lists(answers, student_list)", 'D4'),
     Mutant('split-on-comma', LG, "student_list = student_input.split(self.config['delimiter'])", "student_list = student_input.split(',')", 'D4'),
+    Mutant('process-grade-list-keywords-crossed', LG, "return self.process_grade_list(grade_list, len(answers), msg, grade_decimal)",
+           "return self.process_grade_list(grade_list=grade_list, num_answers=len(student_list), msg=msg, grade_decimal=grade_decimal)", 'D4'),
     Mutant('answer-credit-constant', LG, "        grade_decimal = answer['grade_decimal']\n\n        # Split", "        grade_decimal = 1\n\n        # Split", 'D4'),
     # D5
     Mutant('failure-needs-both-sides', LG, "isinstance(ans, _AutomaticFailure) or isinstance(inp, _AutomaticFailure)", "isinstance(ans, _AutomaticFailure) and isinstance(inp, _AutomaticFailure)", 'D5'),
@@ -1453,6 +1533,12 @@ BENIGN = [
     Benign('blank-test-isspace', LG, "                         if item.strip() == '']", "                         if item == '' or item.isspace()]"),
     Benign('failure-result-hoisted', LG, "def padded_check(check):\n    \"\"\"Wraps a check function to reject _AutomaticFailure\"\"\"\n    def _check(ans, inp):\n        if isinstance(ans, _AutomaticFailure) or isinstance(inp, _AutomaticFailure):\n            return {'ok': False, 'msg': '', 'grade_decimal': 0, 'all_awarded': False}",
            "_FAILED = {'ok': False, 'msg': '', 'grade_decimal': 0, 'all_awarded': False}\n\ndef padded_check(check):\n    \"\"\"Wraps a check function to reject _AutomaticFailure\"\"\"\n    def _check(ans, inp):\n        if isinstance(ans, _AutomaticFailure) or isinstance(inp, _AutomaticFailure):\n            return dict(_FAILED)"),
+    Benign('infer-early-return-and-comprehension', LG, "        if isinstance(self.config['subgrader'], SingleListGrader):\n            for idx, entry in enumerate(answers):\n                answers[idx] = self.config['subgrader'].infer_from_expect(entry)\n\n        # Return the result\n        return answers",
+           "        subgrader = self.config['subgrader']\n        if not isinstance(subgrader, SingleListGrader):\n            return answers\n        return [subgrader.infer_from_expect(entry) for entry in answers]"),
+    Benign('process-grade-list-by-keyword', LG, "return self.process_grade_list(grade_list, len(answers), msg, grade_decimal)",
+           "return self.process_grade_list(grade_list=grade_list, num_answers=len(answers), msg=msg, grade_decimal=grade_decimal)"),
+    Benign('padded-check-conditional-expression', LG, "        if isinstance(ans, _AutomaticFailure) or isinstance(inp, _AutomaticFailure):\n            return {'ok': False, 'msg': '', 'grade_decimal': 0, 'all_awarded': False}\n        return check(ans, inp)",
+           "        return ({'ok': False, 'msg': '', 'grade_decimal': 0, 'all_awarded': False}\n                if isinstance(ans, _AutomaticFailure) or isinstance(inp, _AutomaticFailure) else check(ans, inp))"),
     Benign('expect-split-through-list', LG, "        answers = expect.split(self.config['delimiter'])", "        answers = list(expect.split(self.config['delimiter']))"),
     Benign('all-awarded-list-form', LG, "all(item['grade_decimal'] > 0 for item in grade_list)", "all([item['grade_decimal'] > 0 for item in grade_list])"),
     Benign('message-guard-nested', LG, "        if all_awarded and msg != '':\n            result['msg'] = msg if result['msg'] == '' else result['msg'] + '\\n' + msg",
